@@ -14,16 +14,16 @@ def chunks (n : Nat) : Nat → List β → List (List β)
   | 0, _ => []
   | k+1, l => l.take n :: chunks n k (l.drop n)
 
-def mkCdf (nE nB nZ : Nat) (logE beta frac rows : List Nat) : CdfTable α :=
+def mkCdf (nZ : Nat) (logE beta frac : List Nat) (rowsByE : List (List Nat)) : CdfTable α :=
   { logE := logE.map ofBits, beta := beta.map ofBits, frac := frac.map ofBits,
-    data := chunks nB nE (rows.map (rowOf nZ)) }
+    data := rowsByE.map fun l => l.map (rowOf nZ) }
 
 def mkPexit (pnB : Nat) (plogE pbeta rows : List Nat) : PexitTable α :=
   { logE := plogE.map ofBits, beta := pbeta.map ofBits, data := rows.map (rowOf pnB) }
 
-def cdf1 : CdfTable α := mkCdf Gen.Tab1.nE Gen.Tab1.nB Gen.Tab1.nZ Gen.Tab1.logE Gen.Tab1.beta Gen.Tab1.frac Gen.Tab1.cdfRows
-def cdf2 : CdfTable α := mkCdf Gen.Tab2.nE Gen.Tab2.nB Gen.Tab2.nZ Gen.Tab2.logE Gen.Tab2.beta Gen.Tab2.frac Gen.Tab2.cdfRows
-def cdf3 : CdfTable α := mkCdf Gen.Tab3.nE Gen.Tab3.nB Gen.Tab3.nZ Gen.Tab3.logE Gen.Tab3.beta Gen.Tab3.frac Gen.Tab3.cdfRows
+def cdf1 : CdfTable α := mkCdf Gen.Tab1.nZ Gen.Tab1.logE Gen.Tab1.beta Gen.Tab1.frac Gen.Tab1.cdfRowsByE
+def cdf2 : CdfTable α := mkCdf Gen.Tab2.nZ Gen.Tab2.logE Gen.Tab2.beta Gen.Tab2.frac Gen.Tab2.cdfRowsByE
+def cdf3 : CdfTable α := mkCdf Gen.Tab3.nZ Gen.Tab3.logE Gen.Tab3.beta Gen.Tab3.frac Gen.Tab3.cdfRowsByE
 def pexit1 : PexitTable α := mkPexit Gen.Tab1.pnB Gen.Tab1.plogE Gen.Tab1.pbeta Gen.Tab1.pexitRows
 def pexit2 : PexitTable α := mkPexit Gen.Tab2.pnB Gen.Tab2.plogE Gen.Tab2.pbeta Gen.Tab2.pexitRows
 def pexit3 : PexitTable α := mkPexit Gen.Tab3.pnB Gen.Tab3.plogE Gen.Tab3.pbeta Gen.Tab3.pexitRows
